@@ -193,8 +193,18 @@ func scnC11(rc *RunCtx) {
 		l, k := corrupt(t, rc, m, nx, true)
 		lines = append(lines, sent{l, k})
 	}
-	final := GenSshdMsg(t, []string{"accepted-password", "accepted-cert", "invalid-user", "cert-invalid"}[t.Choose(4, "final")], 99)
+	final := GenSshdMsg(t, []string{"accepted-password", "accepted-cert", "invalid-user", "cert-invalid", "accepted-key", "accepted-keypad"}[t.Choose(6, "final")], 99)
 	lines = append(lines, sent{final.Line(0), "valid-final"})
+	// the same processor handles every line: a second valid line of another kind follows in
+	// most runs (nothing of the first may show up in its event)
+	if f2 := t.Choose(5, "final2"); f2 > 0 {
+		second := []string{"accepted-key", "accepted-keypad", "accepted-cert", "failed-password"}
+		if final.Form == "accepted-cert" {
+			second = []string{"accepted-key", "accepted-keypad", "accepted-key", "accepted-password"}
+		}
+		final = GenSshdMsg(t, second[f2-1], 98)
+		lines = append(lines, sent{final.Line(0), "valid-final"})
+	}
 	kinds := map[string]bool{}
 	pp := &Pipeline{rc: rc}
 	evSeen, eventsFromCorrupt := 0, 0
